@@ -281,4 +281,6 @@ pub fn run(run: &Run) {
         check_case(run, "C03", "indirect", s, &gen_ind, &run_ind, &witness_ind,
             &|c, s| { run.nontrivial(fnv(&c.text)); run.count(if c.stream.is_some() { "indirect:stream" } else { "indirect:value" }); for l in &s.labels { run.count(&format!("label:{}", l)); } if i < 3 { run.sample(witness_ind(c)); } });
     });
+    // thorough: the same quick workload once more under the AddressSanitizer build (memory errors in the library or its dependencies)
+    if !run.quick() { crate::lanes::asan_rerun(run); }
 }
